@@ -34,9 +34,9 @@ CHECKS.update({
  "C05": dict(level="proof", engine="A", technique="Coq theorems (Props/C05.v): mpf_cmp returns the sign of the exact difference for all canonical finite operands, lt/le/gt/ge agree with the real order, nan unordered; mpf_hash = CPython's integer hash for integer-valued mpfs, the unique solution of h*2^k = m (mod 2^61-1) for dyadic rationals, mpc_hash(x,0) = mpf_hash x (pure Z, axiom-free); Gallina model of mpf_cmp/lt/le/gt/ge/eq, mpf_hash, mpc_hash in correspondence; exact-rational order oracle; hash agreement against the interpreter's hash() of int/float/complex",
    text="Comparison and hash routines are transliterated and tied by correspondence on same-top-bit, tiny-difference, cross-sign and special pairs; at API level every comparison across mpf/int/float/mpc/complex is decided against exact rationals and equal values are required to have equal hash(). Theorems in Props/C05.v: for all finite canonical operands mpf_cmp is the sign of the exact difference and mpf_lt/le/gt/ge hold exactly when the real-number relation holds (so the order inherits totality, antisymmetry and transitivity from the reals); nan is unordered. The hash theorems derive from 2^61 = 1 (mod 2^61-1) that mpf_hash follows the interpreter's rule hash(m/2^k) = m*(2^k)^-1 mod P for every finite value, hence equal numbers hash equally across int, mpf and real-valued mpc.",
    note=TB_A + " CPython's numeric hash is the reference (validated against the running interpreter on every run)."),
- "C06": dict(level="proof", engine="A", technique="Coq theorems (Props/C06.v): to_int/floor/ceil/nint/frac against Zfloor/Zceil/ZnearestE; Gallina model of round_int/to_int/mpf_round_int/floor/ceil/nint/frac/mpf_mod (+complex) in correspondence; exact definitions decided with rationals",
-   text="Integer-part functions and modulo are transliterated; the model is tied by correspondence and each case is decided against the mathematical definition (floor, ceil, ties-to-even nint, frac in [0,1), sign and magnitude of x mod y) with correct rounding at the working precision. Theorems in Props/C06.v: the integer-part functions return Flocq's Zfloor/Zceil/ZnearestE of the value (rounded to prec), frac = x - floor x.",
-   note=TB_A + " mpf_mod is decided by correspondence + exact oracle (no theorem)."),
+ "C06": dict(level="proof", engine="A", technique="Coq theorems (Props/C06.v): to_int/floor/ceil/nint/frac against Zfloor/Zceil/ZnearestE, mpf_mod against x - y*floor(x/y); Gallina model of round_int/to_int/mpf_round_int/floor/ceil/nint/frac/mpf_mod (+complex) in correspondence; exact definitions decided with rationals",
+   text="Integer-part functions and modulo are transliterated; the model is tied by correspondence and each case is decided against the mathematical definition (floor, ceil, ties-to-even nint, frac in [0,1), sign and magnitude of x mod y) with correct rounding at the working precision. Theorems in Props/C06.v: the integer-part functions return Flocq's Zfloor/Zceil/ZnearestE of the value (rounded to prec), frac = x - floor x; mpf_mod returns the Flocq rounding of x - y*floor(x/y) for every finite x and non-zero finite y (both shortcut branches included), and that remainder has the sign of the divisor and smaller magnitude.",
+   note=TB_A + " Complex floor/ceil/nint/frac and special values are decided by correspondence + exact oracle."),
  "C09": dict(level="proof", engine="A", technique="Coq/Flocq theorems (Props/C09.v): from_float exact for |m53| < 2^53 and prec >= 53, correctly rounded below; to_float hands ldexp the 53-bit Flocq rounding; Gallina model of from_float/to_float on frexp parts in correspondence; exactness / correct rounding decided with rationals on doubles chosen by 64-bit pattern",
    text="from_float is from_man_exp of the frexp parts (exact by the from_man_exp theorem); to_float is normalize1 to 53 bits (correct rounding theorem) followed by an exact ldexp in the normal range. The model is tied by correspondence over all exponent fields, subnormals, binade edges and halfway points. Theorems in Props/C09.v hold for every frexp mantissa/exponent pair and every regular mpf.",
    note=TB_A + " math.frexp/ldexp trusted."),
